@@ -5,6 +5,7 @@ import (
 	"fmt"
 
 	schema "github.com/jsightapi/jsight-schema-core"
+	"github.com/jsightapi/jsight-schema-core/kit"
 	"github.com/jsightapi/jsight-schema-core/notations/jschema"
 	"github.com/jsightapi/jsight-schema-core/notations/regex"
 
@@ -141,6 +142,16 @@ func (core *JApiCore) compileUserTypeWithAllDependencies(name string) error {
 	// Check user type is correct.
 	// We should do it here 'cause it will simplify further processing.
 	if err := currUT.Check(); err != nil {
+		var e kit.Error
+		if stdErrors.As(err, &e) && e.IncorrectUserType() != "" && e.IncorrectUserType() != name {
+			// The fault is in another type of a reference cycle, whose own check is
+			// still to come (and will name the fault with that type's coordinates);
+			// which of several such types the schema reports here is not determined.
+			if _, ok := core.processedUserTypes[e.IncorrectUserType()]; ok {
+				core.userTypes.Set(name, currUT)
+				return nil
+			}
+		}
 		return jschemaToJAPIError(err, dd.GetValue(name))
 	}
 
